@@ -551,9 +551,10 @@ def main(spec, argv=None):
             while r[0].startswith("noise:") and tries < 3:
                 tries += 1
                 r = replay_file(spec, rp_path)
-            failed, sig = r[0] != "ok", r[1]
-            if r[0].startswith("noise:"):
-                print("note: reproducer of %s undecided (%s); treated as still failing" % (kf["id"], r[0]))
+            failed, sig = r[0] == "crash", r[1]
+            if r[0].startswith("noise:") and kf["status"] != "fixed":
+                failed = True
+                print("note: reproducer of %s undecided (%s); its exclusion stays active" % (kf["id"], r[0]))
         if kf["status"] == "fixed":
             if failed:
                 print("regression of fixed finding %s: %s" % (kf["id"], sig))
